@@ -114,6 +114,10 @@ impl fmt::Display for MediaDescription {
             write!(f, "{}\r\n", candidate)?;
         }
 
+        if self.ice_end_of_candidates {
+            f.write_str("a=end-of-candidates\r\n")?;
+        }
+
         for crypto in &self.crypto {
             write!(f, "a=crypto:{crypto}\r\n")?;
         }
